@@ -444,7 +444,7 @@ def _body_seq(inp, geom, mix, wt, subsets, k, noise_sym, donor_wt=None):
         pl = _preloads(vals, subset)
         snap = np.array(pl.curvature_matrix, copy=True) if pl.curvature_matrix is not None else None
         for i in range(k):
-            pre = "%s|#%d|" % (tag, i)
+            pre = "%s/%s|%s|#%d|" % (mix, "wtilde" if wt else "mapping", tag, i)    # unique per case: every case's candidates get replayed
             inv = hx.attempt(lambda: aa.Inversion(dataset=ds, linear_obj_list=objs, settings=_settings(wt), preloads=pl))
             if isinstance(inv, hx.Raised):
                 A[pre + "construct"], E[pre + "construct"] = inv, "constructed"
@@ -477,7 +477,7 @@ def _body_factory(inp, geom, mix):
         for p_wt in (None, True, False):
             for with_tables in (False, True):
                 pl = _preloads(vals, ("w_tilde",) if with_tables else (), use_w_tilde=p_wt)
-                pre = "settings=%s,preloads.use_w_tilde=%s,preloads.w_tilde=%s|" % (s_wt, p_wt, with_tables)
+                pre = "%s|settings=%s,preloads.use_w_tilde=%s,preloads.w_tilde=%s|" % (mix, s_wt, p_wt, with_tables)
                 inv = hx.attempt(lambda: _fresh_inversion(g, data, noise, mix, s_wt, preloads=pl))
                 if isinstance(inv, hx.Raised):
                     A[pre + "construct"], E[pre + "construct"] = inv, "constructed"
@@ -487,7 +487,7 @@ def _body_factory(inp, geom, mix):
                     E[pre + nme] = ref[nme]
     # "versus preloads=None": the explicit spelling of 'nothing preloaded' must behave like omitting the argument
     for s_wt in (True, False):
-        pre = "settings=%s,preloads=None|" % s_wt
+        pre = "%s|settings=%s,preloads=None|" % (mix, s_wt)
         inv = hx.attempt(lambda: _fresh_inversion(g, data, noise, mix, s_wt, preloads=None))
         if isinstance(inv, hx.Raised):
             A[pre + "construct"], E[pre + "construct"] = inv, "constructed"
@@ -500,6 +500,11 @@ def _body_factory(inp, geom, mix):
 
 CONCRETE_KEYS = ("curvature_matrix", "regularization_matrix", "curvature_reg_matrix", "log_det_curvature_reg_matrix_term",
                  "log_det_regularization_matrix_term", "curvature_matrix_reread")
+
+
+# concrete float outputs reached by two float64 routes: same tolerance as the replay comparison, so that a `sat` verdict is
+# always reproducible natively (1e-12 made a 1e-13 slogdet-vs-splu difference `sat` but not replayable: ENCODING-MISMATCH)
+CONCRETE_TOL = 1e-7
 
 
 def _tol(keys, concrete_tol):
@@ -532,13 +537,13 @@ def case_seq(ctx, geom, mix, wt, subsets, k, noise_sym=False, check=False, donor
     if KNOWN_DVM in os.environ.get("VERIF_KNOWN", "").split(",") and not wt and "F" in mix and "M" in mix:
         # recorded defect: the mapping formalism returns Preloads.data_vector_mapper as the whole data vector
         known = {key: {KNOWN_DVM: z3.BoolVal(True)} for key in E
-                 if "dvm" in key.split("|")[0].split("+") and key.rsplit("|", 1)[-1] in DVM_AFFECTED}
+                 if "dvm" in key.split("|")[1].split("+") and key.rsplit("|", 1)[-1] in DVM_AFFECTED}
         for key in list(known):
             # s^T H s of an already-recorded wrong reconstruction: a quadratic 'differs somewhere' query that z3 leaves
             # unknown and that adds nothing to the finding -> not checked inside the recorded configurations
             if key.endswith("|regularization_term"):
                 del known[key], E[key]
-    hx.check_all(ctx, A, E, tol=None if noise_sym else _tol(E, 1e-12), known=known)
+    hx.check_all(ctx, A, E, tol=None if noise_sym else _tol(E, CONCRETE_TOL), known=known)
     hx.validate(ctx, body_seq, inputs, kw, {k_: v for k_, v in A.items() if not (noise_sym and k_.rsplit("|", 1)[-1] in VIA_UF)}, every=1)
 
 
@@ -619,4 +624,4 @@ def cases(tier):
 
 
 def replay(cand):
-    return hx.replay_body(BODIES[cand["case_fn"]], cand)
+    return hx.replay_body(BODIES[cand["case_fn"]], cand, tol=CONCRETE_TOL)
